@@ -360,3 +360,152 @@ Proof.
       rewrite map_length in Hle. lia.
     + intros (e & He). rewrite He in Hst. discriminate.
 Qed.
+
+(* ------------------------------------------------------------------ every reachable state *)
+Definition progs_ok (progs : list (list sop)) : Prop := Forall (Forall op_ok) progs.
+
+Record SAll (s : sstate) : Prop := { sa_a : AInv s; sa_b : BInv s; sa_c : CInv s }.
+
+Lemma sall_step s p s' : SAll s -> sstep s p = Some s' -> SAll s'.
+Proof.
+  intros [A B C] H. constructor; [eapply ainv_step; eauto | eapply binv_step; eauto | eapply cinv_step; eauto].
+Qed.
+
+Lemma stored_repeat_none n g : ~ stored (repeat None n) g.
+Proof.
+  unfold stored, idx_get. intros (e & H). destruct (nth_error (repeat None n) g) as [o|] eqn:N; [|discriminate].
+  apply nth_error_In in N. apply repeat_spec in N. subst. discriminate.
+Qed.
+
+Lemma sall_init presize progs : progs_ok progs -> SAll (sinit presize progs).
+Proof.
+  intros Ok. unfold sinit.
+  assert (Np : forall p pr, nth_error (map (fun pr0 => mkP None pr0 PIdle []) progs) p = Some pr ->
+            exists prog, nth_error progs p = Some prog /\ pr = mkP None prog PIdle []).
+  { intros p pr H. rewrite nth_error_map in H. destruct (nth_error progs p) as [prog|]; [|discriminate]. injection H as <-. eauto. }
+  constructor; constructor; simpl; try (intros; discriminate); auto.
+  - intros p pr H. destruct (Np p pr H) as (prog & _ & ->). simpl. split; discriminate.
+  - intros p pr H. destruct (Np p pr H) as (prog & Hn & ->). simpl. repeat split; auto.
+    unfold progs_ok in Ok. rewrite Forall_forall in Ok. apply Ok. eapply nth_error_In; eauto.
+  - constructor.
+  - intros g. split; [intros St; exfalso; eapply stored_repeat_none; eauto | intros []].
+  - intros g t [].
+  - intros p pr g t H. destruct (Np p pr H) as (prog & _ & ->). discriminate.
+  - intros p pr g w off H. destruct (Np p pr H) as (prog & _ & ->). discriminate.
+  - intros p pr o r H. destruct (Np p pr H) as (prog & _ & ->). intros [].
+  - intros i Hi. lia.
+  - apply stored_repeat_none.
+Qed.
+
+Theorem sall_run presize progs sched : progs_ok progs -> SAll (srun (sinit presize progs) sched).
+Proof.
+  intros Ok. unfold srun.
+  assert (G : forall sched s, SAll s -> SAll (fold_left (fun s p => match sstep s p with Some s' => s' | None => s end) sched s)).
+  { clear sched. induction sched as [|p r IH]; intros s A; simpl; auto. apply IH. destruct (sstep s p) eqn:E; auto. eapply sall_step; eauto. }
+  apply G. apply sall_init. exact Ok.
+Qed.
+
+(* ------------------------------------------------------------------ what the invariants say *)
+Lemma lock_free_owner s : ss_lock s = None -> owner_pc s = None.
+Proof. unfold owner_pc. intros ->. reflexivity. Qed.
+
+(* the text of an identifier: unique *)
+Lemma texts_unique s g t t' : SAll s -> In (g, t) (ss_texts s) -> In (g, t') (ss_texts s) -> t = t'.
+Proof.
+  intros [_ B _] H1 H2. pose proof (b_nd _ B) as Nd. clear -Nd H1 H2. induction (ss_texts s) as [|[g0 t0] l IH]; [contradiction|].
+  simpl in Nd. inversion Nd as [|? ? Hn Nd']; subst. destruct H1 as [E1|H1]; destruct H2 as [E2|H2].
+  - congruence.
+  - injection E1 as -> ->. exfalso. apply Hn. apply in_map_iff. exists (g, t'). auto.
+  - injection E2 as -> ->. exfalso. apply Hn. apply in_map_iff. exists (g, t). auto.
+  - auto.
+Qed.
+
+(* with no operation inside its critical section: everything stored is completely in its file *)
+Theorem quiescent s : SAll s -> ss_lock s = None ->
+  ss_cnt s = length (ss_texts s)
+  /\ (forall i, i < ss_wf s -> stored (ss_index s) i) /\ ~ stored (ss_index s) (ss_wf s)
+  /\ (forall g t, In (g, t) (ss_texts s) -> exists w off, idx_get (ss_index s) g = Some (w, off) /\ line_at (nth w (ss_files s) []) off = t).
+Proof.
+  intros [A B C] Lk. pose proof (c_cnt _ C) as Cc. pose proof (c_at _ C) as Ca. rewrite (lock_free_owner s Lk) in Cc, Ca.
+  split; [lia|]. split; [apply (c_below _ C)|]. split; [exact Ca|].
+  intros g t Hin. destruct (b_files _ B g t Hin) as (w & off & Hi & [Hw|(_ & p0 & pr0 & Hl & _)]); [|congruence].
+  exists w, off. split; auto. apply line_at_written; auto. pose proof (b_tok _ B) as Bt. rewrite Forall_forall in Bt. apply (Bt (g, t) Hin).
+Qed.
+
+(* is_contiguous(), evaluated with no write in progress: true exactly when the stored identifiers are 0 .. len-1 *)
+Theorem contiguous_spec s : SAll s -> ss_lock s = None ->
+  ((ss_wf s =? ss_cnt s) = true <-> forall g, stored (ss_index s) g <-> g < ss_cnt s).
+Proof.
+  intros SA Lk. destruct (quiescent s SA Lk) as (Hc & Hb & Ha & _). destruct SA as [A B C].
+  assert (Card : forall g, stored (ss_index s) g -> (forall i, i < ss_cnt s -> stored (ss_index s) i) -> g < ss_cnt s).
+  { intros g Sg Hall. destruct (Nat.lt_ge_cases g (ss_cnt s)) as [?|Hge]; auto. exfalso.
+    (* cnt + 1 distinct stored identifiers *)
+    assert (Hle : S (ss_cnt s) <= length (g :: seq 0 (ss_cnt s))) by (simpl; rewrite seq_length; lia).
+    assert (Nd : NoDup (g :: seq 0 (ss_cnt s))) by (constructor; [rewrite in_seq; lia | apply seq_NoDup]).
+    assert (Inc : incl (g :: seq 0 (ss_cnt s)) (map fst (ss_texts s))).
+    { intros x [<-|Hx]; apply (b_idx _ B); auto. apply Hall. apply in_seq in Hx. lia. }
+    pose proof (NoDup_incl_length Nd Inc) as L. rewrite map_length in L. simpl in L. rewrite seq_length in L. lia. }
+  split.
+  - intros E. apply Nat.eqb_eq in E. intros g. split.
+    + intros Sg. apply Card; auto. intros i Hi. apply Hb. lia.
+    + intros Hg. apply Hb. lia.
+  - intros H. apply Nat.eqb_eq. destruct (Nat.lt_trichotomy (ss_wf s) (ss_cnt s)) as [Hlt|[?|Hgt]]; auto.
+    + exfalso. apply Ha. apply H. exact Hlt.
+    + exfalso. assert (St : stored (ss_index s) (ss_cnt s)) by (apply Hb; exact Hgt). apply H in St. lia.
+Qed.
+
+(* iteration, with no write in progress: the stored texts in the order of their identifiers, gaps skipped *)
+Fixpoint text_of (texts : list (nat * list Z)) (g : nat) : option (list Z) :=
+  match texts with [] => None | (g0, t) :: r => if g0 =? g then Some t else text_of r g end.
+Lemma text_of_in texts g t : NoDup (map fst texts) -> In (g, t) texts -> text_of texts g = Some t.
+Proof.
+  induction texts as [|[g0 t0] r IH]; intros Nd H; [contradiction|]. simpl in *. inversion Nd; subst. destruct H as [E|H].
+  - injection E as -> ->. rewrite Nat.eqb_refl. reflexivity.
+  - destruct (g0 =? g) eqn:E; [|auto]. apply Nat.eqb_eq in E. subst. exfalso. match goal with Hn : ~ In _ _ |- _ => apply Hn end.
+    apply in_map_iff. exists (g, t). auto.
+Qed.
+Lemma text_of_none texts g : ~ In g (map fst texts) -> text_of texts g = None.
+Proof.
+  induction texts as [|[g0 t0] r IH]; intros H; auto. simpl in *. destruct (g0 =? g) eqn:E.
+  - apply Nat.eqb_eq in E. subst. exfalso. apply H. left. reflexivity.
+  - apply IH. intros Hin. apply H. right. exact Hin.
+Qed.
+Lemma flat_map_index {A B} (f : A -> list B) (l : list A) :
+  flat_map f l = flat_map (fun i => match nth_error l i with Some x => f x | None => [] end) (seq 0 (length l)).
+Proof.
+  induction l as [|a l IH]; auto. simpl. f_equal. rewrite IH. rewrite <- seq_shift. rewrite !flat_map_concat_map. rewrite map_map. reflexivity.
+Qed.
+
+Theorem iter_spec s : SAll s -> ss_lock s = None ->
+  iter_texts (ss_index s) (ss_files s) =
+  flat_map (fun g => match text_of (ss_texts s) g with Some t => [t] | None => [] end) (seq 0 (length (ss_index s))).
+Proof.
+  intros SA Lk. destruct (quiescent s SA Lk) as (_ & _ & _ & Hf). destruct SA as [A B C].
+  unfold iter_texts. rewrite flat_map_index. apply flat_map_ext_in. intros g _.
+  destruct (nth_error (ss_index s) g) as [[[w off]|]|] eqn:N.
+  - assert (Hi : idx_get (ss_index s) g = Some (w, off)) by (unfold idx_get; rewrite N; reflexivity).
+    assert (St : stored (ss_index s) g) by (eexists; exact Hi). apply (b_idx _ B) in St. apply in_map_iff in St.
+    destruct St as ([g1 t] & E & Hin). simpl in E. subst g1. rewrite (text_of_in _ _ _ (b_nd _ B) Hin).
+    destruct (Hf g t Hin) as (w' & off' & Hi' & Hl). assert (E : (w', off') = (w, off)) by congruence. injection E as -> ->. rewrite Hl. reflexivity.
+  - rewrite text_of_none; auto. intros Hin. apply (b_idx _ B) in Hin. destruct Hin as (e & He). unfold idx_get in He. rewrite N in He. discriminate.
+  - rewrite text_of_none; auto. intros Hin. apply (b_idx _ B) in Hin. destruct Hin as (e & He). unfold idx_get in He. rewrite N in He. discriminate.
+Qed.
+
+(* storing under an identifier that is taken: ValueError, and nothing changes *)
+Theorem duplicate_write s p pr g t o rest s' : nth_error (ss_procs s) p = Some pr -> p_pc pr = PW1 g t -> p_todo pr = o :: rest ->
+  stored (ss_index s) g -> sstep s p = Some s' ->
+  (forall i, idx_get (ss_index s') i = idx_get (ss_index s) i) /\ ss_files s' = ss_files s /\ ss_cnt s' = ss_cnt s /\ ss_wf s' = ss_wf s
+  /\ ss_texts s' = ss_texts s /\ ss_lock s' = None
+  /\ exists pr', nth_error (ss_procs s') p = Some pr' /\ p_out pr' = p_out pr ++ [(o, RValueError)] /\ p_pc pr' = PIdle /\ p_todo pr' = rest.
+Proof.
+  intros N Pc Td (e & He) H. unfold sstep in H. rewrite N, Pc, Td in H. rewrite idx_get_extend, He in H. injection H as <-. simpl.
+  repeat split; auto. - intros i. apply idx_get_extend. - eexists. rewrite (nth_error_set_nth_eq _ _ _ _ N). repeat split.
+Qed.
+
+(* len() at any moment: the number of stored identifiers, or one less while a write is between its two updates *)
+Theorem len_bounds s : SAll s -> ss_cnt s <= length (ss_texts s) <= S (ss_cnt s).
+Proof. intros [_ _ C]. pose proof (c_cnt _ C) as Cc. destruct (owner_pc s) as [[]|]; lia. Qed.
+
+Theorem flush_resets s : let s' := sflush s in
+  ss_index s' = [] /\ ss_files s' = [] /\ ss_cnt s' = 0 /\ ss_wf s' = 0 /\ ss_texts s' = [] /\ (forall g, ~ stored (ss_index s') g).
+Proof. simpl. repeat split; auto. intros g (e & He). unfold idx_get in He. destruct g; discriminate. Qed.
